@@ -158,7 +158,7 @@ SETTINGS = [dict(min_count=None, fill=None), dict(min_count=1, fill=NAN), dict(m
             dict(min_count=None, fill=-5.0)]
 
 
-def check_point(res, func, dtype, M, dist, variant, split_every, setting):
+def check_point(res, func, dtype, M, dist, variant, split_every, setting, engine="numpy"):
     import dask
     import dask.array as da
 
@@ -178,7 +178,7 @@ def check_point(res, func, dtype, M, dist, variant, split_every, setting):
     labels = np.array(labels)
     n = len(labels)
     fobj = user_agg(func) if func.startswith("u_") else func
-    kw = dict(func=fobj, method=variant["method"], reindex=variant["reindex"], engine="numpy")
+    kw = dict(func=fobj, method=variant["method"], reindex=variant["reindex"], engine=engine)
     if variant["expected"]:
         kw["expected_groups"] = np.array([0.0, 1.0])
         if setting["fill"] is not None:
@@ -203,9 +203,9 @@ def check_point(res, func, dtype, M, dist, variant, split_every, setting):
     res.evaluations += B
     res.states += B
     res.transitions += 1
-    case = dict(func=func, dtype=dtype, distribution=list(dist), variant=variant["name"], split_every=split_every, min_count=setting["min_count"],
+    case = dict(func=func, dtype=dtype, engine=engine, distribution=list(dist), variant=variant["name"], split_every=split_every, min_count=setting["min_count"],
                 fill=None if setting["fill"] is None else ("nan" if setting["fill"] != setting["fill"] else setting["fill"]))
-    tags = dict(func=func, dtype=dtype, variant=variant["name"], split_every=str(split_every), min_count=str(setting["min_count"]),
+    tags = dict(func=func, dtype=dtype, engine=engine, variant=variant["name"], split_every=str(split_every), min_count=str(setting["min_count"]),
                 fill=str(setting["fill"]), has_empty_part=0 in dist)
     size = n * 10 + k
     if out.kind == "refused":
@@ -284,6 +284,10 @@ def run_shard(shard):
                             check_point(res, func, dtype, M, dist, variant, se, setting)
                             if 0 in dist:
                                 res.nontrivial += M.shape[0]
+                            # the other engines' block kernels (flox's own, numbagg): the same law, default and explicit-fill settings
+                            if not func.startswith("u_") and se is None and setting in (SETTINGS[0], SETTINGS[4]):
+                                for engine in ("flox", "numbagg"):
+                                    check_point(res, func, dtype, M, dist, variant, se, setting, engine=engine)
     res.sample(dict(func=func, dtype=dtype, members_alphabet=[str(a) for a in alphabet], m=mmax, distributions_m3_k3=[list(d) for d in distributions(3, 3)][:4],
                     variants=[v["name"] for v in VARIANTS]))
     return res
@@ -299,5 +303,5 @@ def replay(payload):
         return run_shard(dict(func=c["func"], dtype=c["dtype"], m=sum(c["distribution"])))
     variant = [v for v in VARIANTS if v["name"] == c["variant"]][0]
     fill = unjson_float(c["fill"]) if c.get("fill") is not None else None
-    check_point(res, c["func"], c["dtype"], M, tuple(c["distribution"]), variant, c["split_every"], dict(min_count=c["min_count"], fill=fill))
+    check_point(res, c["func"], c["dtype"], M, tuple(c["distribution"]), variant, c["split_every"], dict(min_count=c["min_count"], fill=fill), engine=c.get("engine", "numpy"))
     return res
